@@ -73,10 +73,14 @@ def gen_history(seed, kind='file', n=None, weights=None, noids=None):
     noids = noids or r.choice((2, 3, 5, 8, 14))
     w = {'txn': 50, 'undo': 12, 'delete': 4, 'rtxn': 8, 'reopen': 8,
          'clock': 7, 'new_oid': 2, 'wrong': 1}
+    if kind == 'file':
+        w['mundo'] = 4
     if kind == 'mapping':
         w = {'txn': 70, 'clock': 10, 'new_oid': 3, 'wrong': 2}
     if weights:
         w.update(weights)
+    if not w.get('undo'):
+        w['mundo'] = 0
     names = [k for k in w if w[k] > 0]
     wts = [w[k] for k in names]
     ops = []
@@ -97,6 +101,25 @@ def gen_history(seed, kind='file', n=None, weights=None, noids=None):
             if m:
                 op['meta'] = m
             ops.append(op)
+        elif k == 'mundo':
+            # one undo transaction undoing two (three) transactions of the
+            # same object -- it then holds several records of that object
+            # -- followed by a write and its undo, whose back pointer
+            # leads to the last of them
+            o = r.randrange(noids)
+            m = r.choice((2, 2, 3))
+            cls = r.choice(('Cell', 'Cell', 'Merge'))
+            for _ in range(m + 1):
+                ops.append({'op': 'txn', 'recs': [
+                    {'o': o, 'cls': cls, 'size': r.choice((0, 10, 200))}]})
+            tg = [-1 - i for i in range(m)]
+            if r.random() < 0.2:
+                tg.reverse()
+            ops.append({'op': 'undo', 'targets': tg})
+            if r.random() < 0.8:
+                ops.append({'op': 'txn', 'recs': [
+                    {'o': o, 'cls': cls, 'size': r.choice((0, 10))}]})
+                ops.append({'op': 'undo', 'targets': [-1]})
         elif k == 'delete':
             op = {'op': 'delete', 'o': r.randrange(noids)}
             if r.random() < 0.2:
